@@ -92,6 +92,7 @@ struct State {
   std::map<const VarDecl*, int> flags;      // local bool -> 0/1
   std::map<const VarDecl*, int> nodeKind;   // unpacked_node* var -> 1 readable, 2 writable, 3 redundant-of
   std::map<const VarDecl*, int> nodeOrigin; // for kind 3: value id of the filled handle
+  std::map<const VarDecl*, int> nodeLife;   // unpacked_node* local from a factory: 0 untracked, 1 live, 2 recycled/reduced
   std::string key() const {
     std::ostringstream os;
     // canonical renumbering
@@ -100,6 +101,7 @@ struct State {
     for (auto &p : tmp) { os << "t" << (const void*)p.first << tokName(tok[p.second]) << ";"; }
     for (auto &p : flags) os << "f" << (const void*)p.first << p.second << ";";
     for (auto &p : nodeKind) os << "n" << (const void*)p.first << p.second << ";";
+    for (auto &p : nodeLife) os << "l" << (const void*)p.first << p.second << ";";
     return os.str();
   }
   int fresh(Tok t) { tok.push_back(t); return (int)tok.size() - 1; }
@@ -253,6 +255,29 @@ public:
     // unpacked node bookkeeping
     {
       std::string cq = Callee->getQualifiedNameAsString();
+      // typestate of unpacked_node* locals obtained from a factory: live until exactly one of Recycle / createReducedNode /
+      // modifyReducedNodeInPlace; any other call that receives the pointer makes it untracked (it may be kept or released there)
+      bool releases = cq == "MEDDLY::unpacked_node::Recycle" || cq.find("createReducedNode") != std::string::npos || cq.find("modifyReducedNodeInPlace") != std::string::npos;
+      for (unsigned ai = 0; ai < CE->getNumArgs(); ai++) if (const VarDecl *NV = nodeVarOf(CE->getArg(ai))) {
+        auto lf = S.nodeLife.find(NV);
+        if (lf == S.nodeLife.end() || lf->second == 0) continue;
+        if (releases) {
+          event(CE);
+          if (lf->second == 2) report("own.unpacked", CE, "double:" + NV->getNameAsString(), "unpacked node '" + NV->getNameAsString() + "' is recycled/reduced a second time (it is already back on the free list: the list is corrupted)");
+          lf->second = 2;
+        } else if (!isa<UnaryOperator>(strip(CE->getArg(ai))) || true) {
+          // passed by pointer or by reference to some other function
+          const FunctionDecl *F = Callee;
+          bool byConstRef = ai < F->getNumParams() + argOff && ai >= argOff && F->getParamDecl(ai - argOff)->getType()->isReferenceType() && F->getParamDecl(ai - argOff)->getType().getNonReferenceType().isConstQualified();
+          bool isDeref = false; { const Expr *E = strip(CE->getArg(ai)); if (auto *UO = dyn_cast_or_null<UnaryOperator>(E)) isDeref = UO->getOpcode() == UO_Deref; }
+          if (lf->second == 2 && (isDeref || byConstRef)) report("own.unpacked", CE, "use-after:" + NV->getNameAsString(), "unpacked node '" + NV->getNameAsString() + "' is used after it was recycled/reduced");
+          if (!isDeref && !byConstRef && lf->second == 1) lf->second = 0;   // the pointer itself escapes
+        }
+      }
+      if (auto *MC = dyn_cast<CXXMemberCallExpr>(CE)) if (const VarDecl *NV = nodeVarOf(MC->getImplicitObjectArgument())) {
+        auto lf = S.nodeLife.find(NV);
+        if (lf != S.nodeLife.end() && lf->second == 2) { event(CE); report("own.unpacked", CE, "use-after:" + NV->getNameAsString(), "unpacked node '" + NV->getNameAsString() + "' is used after it was recycled/reduced"); }
+      }
       if (cq.find("createReducedNode") != std::string::npos || cq.find("modifyReducedNodeInPlace") != std::string::npos) {
         for (unsigned ai = 0; ai < CE->getNumArgs(); ai++) if (const VarDecl *NV = nodeVarOf(CE->getArg(ai))) {
           auto k = S.nodeKind.find(NV);
@@ -305,6 +330,22 @@ public:
     }
   }
 
+  void noteNodeLife(State &S, const VarDecl *NV, const Expr *Init, const Stmt *At) {
+    // (re)definition of an unpacked_node* local: a live node that is overwritten is lost
+    auto old = S.nodeLife.find(NV);
+    if (old != S.nodeLife.end() && old->second == 1 && NV->isLocalVarDecl()) { event(At); report("own.unpacked", At, "leak:" + NV->getNameAsString(), "unpacked node in '" + NV->getNameAsString() + "' is overwritten while still live (never recycled or reduced: it stays on the forest's list and pins its children)"); }
+    int life = 0;
+    const Expr *E = strip(Init);
+    if (auto *CE = dyn_cast_or_null<CallExpr>(E)) if (const FunctionDecl *C = CE->getDirectCallee()) {
+      std::string q = C->getQualifiedNameAsString();
+      if (q == "MEDDLY::unpacked_node::New" || q == "MEDDLY::unpacked_node::newFromNode" || q == "MEDDLY::unpacked_node::newRedundant" ||
+          q == "MEDDLY::unpacked_node::newIdentity" || q == "MEDDLY::unpacked_node::newWritable") life = 1;
+    }
+    if (NV->isLocalVarDecl() && NV->getType()->isPointerType()) S.nodeLife[NV] = life;
+    // aliasing another node variable: both become untracked
+    if (const VarDecl *Other = nodeVarOf(Init)) { S.nodeLife[Other] = 0; S.nodeLife[NV] = 0; }
+  }
+
   void noteNodeInit(State &S, const VarDecl *NV, const Expr *Init) {
     const Expr *E = strip(Init);
     if (auto *CO = dyn_cast_or_null<ConditionalOperator>(E)) { // take the weaker of the two arms
@@ -326,13 +367,15 @@ public:
   void handleStmt(State &S, const Stmt *St) {
     if (auto *CE = dyn_cast<CallExpr>(St)) { handleCall(S, CE); return; }
     if (auto *BO = dyn_cast<BinaryOperator>(St)) if (BO->getOpcode() == BO_Assign) {
-      if (const VarDecl *NV = nodeVarOf(BO->getLHS())) { noteNodeInit(S, NV, BO->getRHS()); return; }
+      if (const VarDecl *NV = nodeVarOf(BO->getLHS())) { if (NV->getType()->isPointerType()) noteNodeLife(S, NV, BO->getRHS(), BO); noteNodeInit(S, NV, BO->getRHS()); return; }
+      // the pointer is stored somewhere else (array slot, member): it escapes
+      if (const VarDecl *RV = nodeVarOf(BO->getRHS())) if (BO->getRHS()->getType()->isPointerType()) S.nodeLife[RV] = 0;
       if (auto *DR = dyn_cast<DeclRefExpr>(strip(BO->getLHS()))) if (auto *VD = dyn_cast<VarDecl>(DR->getDecl())) if (VD->getType()->isBooleanType() && VD->isLocalVarDecl()) {
         if (auto *BL = dyn_cast<CXXBoolLiteralExpr>(strip(BO->getRHS()))) S.flags[VD] = BL->getValue() ? 1 : 0; else S.flags.erase(VD);
         return; }
     }
     if (auto *DS = dyn_cast<DeclStmt>(St)) for (auto *D : DS->decls()) if (auto *VD = dyn_cast<VarDecl>(D)) {
-      if (VD->hasInit() && nodeVarOfDecl(VD)) noteNodeInit(S, VD, VD->getInit());
+      if (VD->hasInit() && nodeVarOfDecl(VD)) { if (VD->getType()->isPointerType()) noteNodeLife(S, VD, VD->getInit(), St); noteNodeInit(S, VD, VD->getInit()); }
       if (VD->getType()->isBooleanType() && VD->isLocalVarDecl() && VD->hasInit()) if (auto *BL = dyn_cast<CXXBoolLiteralExpr>(strip(VD->getInit()))) S.flags[VD] = BL->getValue() ? 1 : 0;
     }
     if (auto *BO = dyn_cast<BinaryOperator>(St)) {
@@ -357,6 +400,7 @@ public:
       return;
     }
     if (auto *RS = dyn_cast<ReturnStmt>(St)) {
+      if (RS->getRetValue()) if (const VarDecl *NV = nodeVarOf(RS->getRetValue())) S.nodeLife[NV] = 0;   // handed to the caller
       if (RS->getRetValue()) { bool r; if (isNodeHandleType(FD->getReturnType(), r)) {
         int v = valueOf(S, RS->getRetValue());
         if (retOwned) { Tok t = S.tok[v];
@@ -416,6 +460,8 @@ public:
       if (t == M) report("own.double-move", At, "exit:" + P->getNameAsString(), "out-parameter '" + P->getNameAsString() + "' holds an already-moved handle at exit");
       if (t == O) S.tok[it->second] = M; // handed to caller
     }
+    for (auto &p : S.nodeLife) if (p.second == 1)
+      report("own.unpacked", At, "leak:" + p.first->getNameAsString(), "unpacked node in '" + p.first->getNameAsString() + "' is neither recycled nor reduced on some normal path (it stays on the forest's list and pins its children)");
     std::set<int> seen;
     for (auto &p : S.var2val) {
       if (S.tok[p.second] == O && !seen.count(p.second)) {
